@@ -2,10 +2,9 @@
 //! unsized ones, every buffer length from MIN_SIZE upwards (each single length).
 
 use engines::*;
-use flatty::prelude::*;
 use harness::guard::Arena;
 use harness::report::{catch, hex, journal, Args};
-use harness::{ByValue, Node};
+use harness::ShapeDyn;
 use refmodel::ops::Kind;
 use refmodel::values::{enum_values, Limits};
 use refmodel::{c_offsets, encode, floor, Desc};
@@ -27,33 +26,35 @@ fn expected_offsets(d: &Desc, v: &refmodel::Value) -> Option<Vec<usize>> {
 
 impl Engine for Layout {
     const NAME: &'static str = "layout";
-    fn run<T: Node + ?Sized + 'static>(&self, id: &'static str, args: &Args) -> Accs {
+    fn run(&self, s: &dyn ShapeDyn, args: &Args) -> Accs {
+        let id = s.id();
         let mut m = Accs::new();
         let a = acc(&mut m, "C04");
-        let d = T::desc();
+        let d = s.desc();
+        let (t_align, t_min) = (s.lib_align(), s.lib_min_size());
         let fam = family(id);
-        let mut v = |a: &mut harness::report::PropAcc, what: &str, detail: String, extra: serde_json::Value| {
+        let v = |a: &mut harness::report::PropAcc, what: &str, detail: String, extra: serde_json::Value| {
             a.violate(format!("layout/{}/{}", what, fam), format!("{}: {}", id, detail), json!({"engine": "layout", "shape": id, "what": what, "case": extra}));
         };
         // ---- static facts
         a.evaluations += 1;
-        if T::ALIGN != d.align() {
-            v(a, "align", format!("ALIGN {} != reference {}", T::ALIGN, d.align()), json!({}));
+        if t_align != d.align() {
+            v(a, "align", format!("ALIGN {} != reference {}", t_align, d.align()), json!({}));
         }
-        if let Some((fsize, csize, calign)) = T::sized_info() {
+        if let Some((fsize, csize, calign)) = s.sized_info() {
             if !(fsize == csize && csize == d.size()) {
                 v(a, "size", format!("SIZE {} / size_of {} / reference {}", fsize, csize, d.size()), json!({}));
             }
-            if !(calign == T::ALIGN) {
-                v(a, "align", format!("align_of {} != ALIGN {}", calign, T::ALIGN), json!({}));
+            if !(calign == t_align) {
+                v(a, "align", format!("align_of {} != ALIGN {}", calign, t_align), json!({}));
             }
-            if T::MIN_SIZE != fsize {
-                v(a, "min_size", format!("MIN_SIZE {} != SIZE {}", T::MIN_SIZE, fsize), json!({}));
+            if t_min != fsize {
+                v(a, "min_size", format!("MIN_SIZE {} != SIZE {}", t_min, fsize), json!({}));
             }
-        } else if T::MIN_SIZE != d.min_size() {
-            v(a, "min_size", format!("MIN_SIZE {} != reference {}", T::MIN_SIZE, d.min_size()), json!({}));
+        } else if t_min != d.min_size() {
+            v(a, "min_size", format!("MIN_SIZE {} != reference {}", t_min, d.min_size()), json!({}));
         }
-        let ex = T::extra();
+        let ex = s.extra();
         if let Some(o) = ex.data_offset {
             if o != d.enum_data_offset() {
                 v(a, "data_offset", format!("DATA_OFFSET {} != reference {}", o, d.enum_data_offset()), json!({}));
@@ -90,13 +91,13 @@ impl Engine for Layout {
                 }
                 journal(format!("layout {} gate n={}", id, n).as_bytes());
                 a.evaluations += 1;
-                let r = catch(|| T::validate(slot.bytes()).is_ok());
+                let r = catch(|| s.validate(slot.bytes()).is_ok());
                 match r {
                     Ok(false) => {}
                     Ok(true) => v(a, "gate", format!("validate accepts {} bytes < MIN_SIZE {}", n, min), json!({"n": n, "bytes": hex(slot.bytes())})),
                     Err(p) => v(a, "gate_panic", format!("validate panics on {} bytes: {}", n, p), json!({"n": n})),
                 }
-                if let Some(r) = catch(|| T::try_default(slot.bytes_mut()).map(|r| r.is_ok())).ok().flatten() {
+                if let Some(r) = catch(|| s.default_in_place(slot.bytes_mut()).map(|r| r.is_ok())).ok().flatten() {
                     if r {
                         v(a, "gate", format!("default_in_place accepts {} bytes < MIN_SIZE {}", n, min), json!({"n": n}));
                     }
@@ -119,23 +120,23 @@ impl Engine for Layout {
                     journal(format!("layout {} n={} vi={} way={}", id, n, vi, way).as_bytes());
                     a.evaluations += 1;
                     let res = catch(|| -> Result<Option<String>, String> {
-                        let x: &T = match way {
-                            0 => match T::new_in_place(slot_bytes(&mut slot), ByValue(val, Kind::Iter)) {
+                        let x = match way {
+                            0 => match s.new_in_place(slot_bytes(&mut slot), val, Kind::Iter) {
                                 Ok(x) => x,
                                 Err(e) => return Err(format!("new_in_place refused a fitting value: {:?}", e)),
                             },
-                            1 => match T::from_bytes(slot_bytes(&mut slot)) {
+                            1 => match s.from_bytes(slot_bytes(&mut slot)) {
                                 Ok(x) => x,
                                 Err(e) => return Err(format!("from_bytes refused the reference image: {:?}", e)),
                             },
-                            _ => match T::try_default(slot_bytes(&mut slot)) {
+                            _ => match s.default_in_place(slot_bytes(&mut slot)) {
                                 None => return Ok(None),
                                 Some(Ok(x)) => x,
                                 Some(Err(e)) => return Err(format!("default_in_place refused {} >= MIN_SIZE bytes: {:?}", n, e)),
                             },
                         };
-                        let sv = core::mem::size_of_val(x);
-                        let av = core::mem::align_of_val(x);
+                        let sv = x.size_of_val;
+                        let av = x.align_of_val;
                         if sv > n {
                             return Err(format!("size_of_val {} > slice length {}", sv, n));
                         }
@@ -145,16 +146,15 @@ impl Engine for Layout {
                         if av != d.align() {
                             return Err(format!("align_of_val {} != reference {}", av, d.align()));
                         }
-                        let ab = x.as_bytes();
-                        if ab.as_ptr() as usize != base || ab.len() > n {
-                            return Err(format!("as_bytes() = +{}..+{} not inside 0..{}", ab.as_ptr() as isize - base as isize, ab.len(), n));
+                        if x.as_bytes_addr != base || x.as_bytes_len > n {
+                            return Err(format!("as_bytes() = +{}..+{} not inside 0..{}", x.as_bytes_addr as isize - base as isize, x.as_bytes_len, n));
                         }
-                        if x as *const T as *const u8 as usize != base {
+                        if x.self_addr != base {
                             return Err("value does not start at the slice start".into());
                         }
                         if way != 2 {
                             if let Some(eo) = &exp_offs {
-                                let pr = x.field_probes();
+                                let pr = &x.probes;
                                 if pr.len() != eo.len() {
                                     return Err(format!("{} field probes, reference has {}", pr.len(), eo.len()));
                                 }
